@@ -24,8 +24,61 @@ THOROUGH = {
     "tlc_timeout": 3000,
    }
 
+def _win(seed):
+    from harness import concdriver
+    try:
+        wins, stats = concdriver.execute(seed, nwin=6, sessions=("A", "B", "C"), p_fifo=0.5 if seed % 2 else 0.75)
+        return seed, wins, None
+    except BaseException:
+        import traceback
+        return seed, None, traceback.format_exc()[-1500:]
+
+
+def windows(ck):
+    """The file side of C13 under concurrency: after every window of simultaneously issued commands
+    (slow clients keep non-PEEK FETCHes running next to STOREs of other messages) .mh_sequences agrees
+    with what the sessions see (spec/TraceWindowFile.tla evaluates MailProps!FileAgrees on the final state)."""
+    import json, tempfile, shutil
+    import multiprocessing as mp
+    from harness import tlc
+    n = 400 if ck.tier == "thorough" else 40
+    seeds = [ck.seed * 100000 + 70000 + i for i in range(n)]
+    with mp.get_context("fork").Pool(14) as pool:
+        res = pool.map(_win, seeds, chunksize=2)
+    wins, origin = [], []
+    for seed, ws, err in res:
+        if err:
+            raise RuntimeError(f"window harness failed (seed {seed}): {err}")
+        for k, w_ in enumerate(ws):
+            wins.append({"final": w_["final"]})
+            origin.append((seed, k, w_))
+    tmp = tempfile.mkdtemp(prefix="verif-c13w-")
+    try:
+        p = os.path.join(tmp, "wins.json")
+        json.dump(wins, open(p, "w"))
+        r = tlc.run("TraceWindowFile", "SPECIFICATION Spec\nCHECK_DEADLOCK FALSE\n", env={"TRACE_FILE": p}, workers=1, timeout=3000)
+        if r.rc != 0:
+            raise RuntimeError(f"TraceWindowFile failed: {r.error}")
+        if not any(pr and pr[0] == "DONE" and pr[1] == len(wins) for pr in r.prints):
+            raise RuntimeError("TraceWindowFile did not consume every window")
+        ck.cov["concurrent_windows_file_checked"] = len(wins)
+        ck.cov["states"] += r.distinct
+        ck.cov["transitions"] += r.generated
+        for pr in r.prints:
+            if pr and pr[0] == "VIOL":
+                seed, k, w_ = origin[pr[1] - 1]
+                acts = "+".join(sorted(c["act"] for c in w_["cmds"].values()))
+                ck.violation(pr[3], act=acts, where=f"window seed {seed} #{k} mailbox {pr[2]}",
+                             detail=json.dumps({c_: {x: v[x] for x in ("sess", "act", "uid", "set", "flags", "status")}
+                                                for c_, v in w_["cmds"].items()})[:300],
+                             replay_obj={"seed": seed, "window": k, "w": w_})
+    finally:
+        shutil.rmtree(tmp, ignore_errors=True)
+
+
 def fn(ck, a):
     mailfam.run_family(ck, ["C13."], model_prop="P_C13", quick=QUICK, thorough=THOROUGH)
+    windows(ck)
 
 if __name__ == "__main__":
     lib.main(fn, "C13")
